@@ -79,6 +79,11 @@ func newModel(thorough bool) *chainprop.Model {
 	add("online D1")
 	add("delegate N1->P")
 	add("killDelegator P->N1")
+	// a pool whose owner is not a validated identity: going online while its delegators leave
+	add("delegate D1->X2")
+	add("online X2")
+	add("online X2", "undelegate D1")
+	add("online X2", "kill D1")
 	m.Acts = append(m.Acts, chainprop.Action{Name: "block-proposed-by-pool-P", By: "P", Expand: true})
 	m.Acts = append(m.Acts,
 		chainprop.Action{Name: "empty-block", Empty: true, Expand: true},
@@ -214,7 +219,7 @@ func main() {
 		chainmc.ReplayFile(run, m)
 		return
 	}
-	run.SetBudget(5*60e9, 20*60e9)
+	run.SetBudget(8*60e9, 20*60e9)
 	depth := 3
 	if run.Thorough() {
 		depth = 5
